@@ -91,6 +91,8 @@ def run(ctx):
                         "demos are the only place where the pipeline stages are composed inside the repository"]
     res.not_decided += ["completion for every configuration (termination of each stage is under C01/C02/C09/C10)",
                         "equality of coordinates between reduced-space knees and mapped knees (follows from C07 once the index spaces are used consistently)"]
+    from .common import hidden_state as _hidden_state
+    _hidden_state(rc, "V7", ['rdp.rdp', 'rdp.rdp_fixed', 'rdp.grdp', 'rdp.mp_grdp', 'rdp.min_point_rdp', 'multi_knee.multi_knee', 'curvature.multi_knee', 'dfdt.multi_knee', 'menger.multi_knee', 'lmethod.multi_knee', 'kneedle.multi_knee', 'postprocessing.filter_worst_knees', 'postprocessing.filter_corner_knees', 'postprocessing.select_corner_knees', 'postprocessing.filter_clusters', 'postprocessing.filter_clusters_corners', 'rdp.mapping'], "the pipeline stages")
     res.require_instances("C08 obligations", len(res.obligations), 18)
 
 
